@@ -5,7 +5,7 @@ patch="$(realpath "$1")"; shift
 cd /repo || exit 2
 if [ -n "$(git status --porcelain --untracked-files=no)" ]; then echo "repo dirty; refusing" >&2; exit 2; fi
 git apply "$patch" || { echo "patch does not apply: $patch" >&2; exit 2; }
-trap 'git -C /repo checkout -- . ; (cd /verif && . ./env.sh && go build -o bin/check ./cmd/check)' EXIT
+trap 'git -C /repo checkout -- . ; (cd /verif && . ./env.sh && go build -o bin/check ./cmd/check; ./build_atlas.sh)' EXIT
 for id in "$@"; do
   out=$(cd /verif && VERIF_ROOT=/verif/scratch/mut ./check "$id" --tier "${TIER:-quick}" 2>&1); rc=$?
   if [ $rc -eq 1 ] && echo "$out" | grep -q "^VIOLATION property=$id"; then
